@@ -51,3 +51,22 @@ Example C14_example :
   /\ request_trace Chi true [Pass; Stop; Pass] None = [EMw 0; EMw 1]
   /\ request_trace Gin false [Pass; Stop; Pass] None = [EMw 0; EMw 1].
 Proof. vm_compute. repeat split. Qed.
+
+(** The statement speaks of every request a server receives, not only of the first one after start-up: on a mounted
+    server (the configured slice is the only state a request could change) the k-th request leaves the trace of the
+    first, for every k; a wrapper that reversed its slice in place would alternate (refuted variant). *)
+Theorem C14_every_request_like_the_first : forall fw ftl ms strict k,
+  nth_request fw ftl ms strict k = request_trace fw ftl ms strict.
+Proof. exact every_request_like_the_first. Qed.
+Print Assumptions C14_every_request_like_the_first.
+
+Theorem C14_history_is_constant : forall fw ftl ms strict n,
+  serve_n (serve fw ftl strict) (indexed ms) n = repeat (request_trace fw ftl ms strict) n.
+Proof. exact history_is_constant. Qed.
+Print Assumptions C14_history_is_constant.
+
+Theorem C14_reversing_in_place_refuted :
+  serve_n (serve_reversing true None) (indexed [Pass; Pass]) 3 =
+  [[EMw 0; EMw 1; EHandler]; [EMw 1; EMw 0; EHandler]; [EMw 0; EMw 1; EHandler]].
+Proof. exact reversing_in_place_refuted. Qed.
+Print Assumptions C14_reversing_in_place_refuted.
